@@ -255,7 +255,7 @@ def check_case(rc, want_text=False):
     orig.verify()
     S = rc["S"]
     classes = [f"stages:{S}"]
-    canon = rc.get("canon", True) or (rc["lb"], rc["step"]) != (0, 1)
+    canon = rc.get("canon", True)
     ref = orig.clone()
     if canon:
         run_pass(ref, "pipeline-canonicalize-for")
